@@ -275,7 +275,7 @@ def gen_strat(rng, name=None, bad=1.0):
 
 
 def gen_people(rng, n):
-    return [[rng.choice(COLORS), rng.choice("FM"), rng.choice([0, 5, 9, 10, 11, 19, 20, 24, 25, 30, 37, rng.randint(0, 37)]),
+    return [[rng.choice(COLORS), rng.choice("FM"), rng.choice([0, 5, 9, 10, 11, 14, 15, 19, 20, 24, 25, 29, 30, 37, rng.randint(0, 37)]),
              rng.randint(-4, 9), rng.randint(0, 5)] for _ in range(n)]
 
 
